@@ -16,18 +16,39 @@ ErrDevInit == {Panic, Fatal, Error, Warn, Fail}
 
 AsBuiltin(r, treat) == IF r \in DOMAIN treat THEN treat[r] ELSE r
 
-(* The statement of C01, declaratively: L is the logger's level, r the record's severity,
-   dbg the process-wide debug mode, treat the treated-as table.                              *)
-Admit(L, r, dbg, treat) ==
-    /\ L # Off
-    /\ r # Off
-    /\ \/ L = Always
-       \/ r = Always
-       \/ (dbg /\ r = Debug)
-       \/ AsBuiltin(r, treat) <= L
+(* "a registered custom level counting as the built-in level it is treated as": the table is followed to
+   its end (a level may be treated as a level registered before it, OK / Success / Fail are themselves
+   entries of the factory table); the step bound makes a cyclic table harmless.                          *)
+RECURSIVE CountsAsN(_, _, _)
+CountsAsN(r, treat, n) ==
+    IF n = 0 \/ r \notin DOMAIN treat \/ treat[r] = r THEN r ELSE CountsAsN(treat[r], treat, n - 1)
+CountsAs(r, treat) == CountsAsN(r, treat, Cardinality(DOMAIN treat) + 1)
 
-(* Level.Enabled transcribed line by line (the mechanism).                                   *)
+(* The statement of C01, declaratively: L is the logger's level, r the record's severity,
+   dbg the process-wide debug mode, treat the treated-as table.  Every clause speaks about the level
+   the severity counts as: a level treated as Always is always admitted, one treated as Off never,
+   one treated as Debug is admitted while debug mode is on.                                      *)
+Admit(L, r, dbg, treat) ==
+    LET e == CountsAs(r, treat)
+    IN /\ L # Off
+       /\ e # Off
+       /\ \/ L = Always
+          \/ e = Always
+          \/ (dbg /\ e = Debug)
+          \/ e <= L
+
+(* Level.Enabled transcribed line by line (the mechanism; since the repair of 2026-10-03 the table
+   is consulted first and followed to its end).                                                 *)
 EnabledMech(L, r, dbg, treat) ==
+    LET t == CountsAs(r, treat)
+    IN IF L = Off \/ t = Off THEN FALSE
+       ELSE IF L = Always \/ t = Always THEN TRUE
+       ELSE IF dbg /\ t = Debug THEN TRUE
+       ELSE L >= t
+
+(* the mechanism before that repair (one look-up, after the Off / Always / Debug tests): kept as the
+   named deviation the C01 witness run must reject                                              *)
+EnabledMechOneStep(L, r, dbg, treat) ==
     IF L = Off \/ r = Off THEN FALSE
     ELSE IF L = Always \/ r = Always THEN TRUE
     ELSE IF dbg /\ r = Debug THEN TRUE
